@@ -246,7 +246,7 @@ def run_check(tier):
     stats.selftest()
     return chk.finish(extra_cov={"scenarios": stats.n, "runs_per_archive": stats.archs, "scenarios_under_deviation_guard": stats.dev,
                                  "scenarios_with_merged_array_paths": stats.merged, "scenarios_with_multi_message_field": stats.multi},
-                      exhaustive="all states of MC_Validation within the stated constants; every state replayed on every applicable archive")
+                      exhaustive=True)
 
 
 def run(tier):
